@@ -1,6 +1,12 @@
+#[cfg(not(feature = "cosmian_cover_crypt_verif"))]
 use std::{
     collections::{hash_map::Entry, HashMap},
     fmt::Debug,
+};
+#[cfg(feature = "cosmian_cover_crypt_verif")]
+use {
+    crate::verif_model::collections::{hash_map::Entry, HashMap},
+    std::fmt::Debug,
 };
 
 use serde::{Deserialize, Serialize};
